@@ -44,7 +44,7 @@ ASSUMPTIONS = ['TIF-marked LIS files whose first record is exactly 276 bytes sha
 SHARDS = {'quick': 4, 'thorough': 16}
 REQUIRED_CLASSES = {'valid-RP66V1': 1, 'valid-LIS': 1, 'valid-LISt': 1, 'valid-LIStr': 1, 'valid-LAS1.2': 1, 'valid-LAS2.0': 1, 'valid-BIT': 1,
                     'valid-DAT': 1, 'arbitrary-truncation': 1, 'arbitrary-mutation': 1, 'arbitrary-splice': 1, 'arbitrary-random': 1, 'arbitrary-text-token': 1,
-                    'valid-DAT-first-row-beyond-4KiB': 1, 'valid-file>8KiB': 1, 'arbitrary-ebcdic': 1}
+                    'valid-DAT-first-row-beyond-4KiB': 1, 'valid-file>8KiB': 1, 'arbitrary-ebcdic': 1, 'valid-BIT-20-channels': 1}
 
 
 class Timeout(Exception):
@@ -133,6 +133,8 @@ def valid_cases(draw):
     if fmt == 'LAS':
         return {'fmt': fmt, 'model': draw(GA.las_models(max_curves=5, max_frames=12, min_curves=2)), 'layout': draw(GA.layouts())}
     if fmt == 'BIT':
+        if draw(st.integers(0, 2)) == 0:   # up to the largest legal channel count (20 names fit the header block)
+            return {'fmt': fmt, 'model': draw(GB.bit_models(max_passes=1, max_channels=20, max_frames=6))}
         return {'fmt': fmt, 'model': draw(GB.bit_models(max_passes=2, max_channels=6, max_frames=30))}
     # 'extra_decls': declared channels that the header line does not use (legal), added at rendering time so that the
     # declarations + header + first row reach well beyond 4 KiB without a huge Hypothesis example
@@ -204,6 +206,7 @@ def check_valid(case, cc):
         return
     cc.cls('valid-' + exp)
     cc.cls('valid-file>8KiB', len(data) > 8192)
+    cc.cls('valid-BIT-20-channels', exp == 'BIT' and any(len(p['channels']) == 20 for p in case['model']['passes']))
     cc.cls('valid-DAT-first-row-beyond-4KiB', exp == 'DAT' and _dat_first_row_end(data) > 4096)
     cc.nt(nt)
     if res != exp:
